@@ -6,7 +6,7 @@ Expressions (JSON lists):
   [op, l, r] for op in == != < <= > >= + - * / % & | ^ << >>      ["not", e]
   ["in"|"notin", e, [item...]]  item = ["rng", lo, hi] | expr      ["in_rl"|"notin_rl", e, path]
   ["in_list"|"notin_list", e, path]   ["ps", fexpr, hi, lo]  ["bit", fexpr, i]
-  ["size", path] ["sum", path] ["product", path]   ["dyn", block]  ["dynp", path, block]
+  ["size", path] ["sum", path] ["product", path] ["sel", listpath, index expr]   ["dyn", block]  ["dynp", path, block]
 Statements:
   ["e", expr] ["soft", expr] ["if", [[cond, stmts]...], else|None] ["implies", cond, stmts]
   ["unique", [expr | ["list", path]...]] ["unique_vec", [path...]] ["foreach", path, var, stmts]
@@ -156,6 +156,9 @@ def ty(e, env):
         return 1, False
     if k == "size":
         return 32, False
+    if k == "sel":
+        lst = env.node(env.abspath(e[1]))
+        return lst["elem"][1], lst["elem"][0] == "s"
     if k == "sum":
         lst = env.node(env.abspath(e[1]))
         n = len(lst["elems"])
@@ -208,6 +211,20 @@ def ev(e, env, ctx=0):
     if k == "size":
         t, w, s = env.leaf_term(env.abspath(e[1]) + ("size",))
         return t
+    if k == "sel":
+        # l[<index expression over random fields>]: the element the index selects in the SAME solution.  The families keep the index
+        # inside the list by its type (unsigned, 2**width <= len), so no out-of-range case exists
+        lp = env.abspath(e[1])
+        lst = env.node(lp)
+        iw, isg = ty(e[2], env)
+        if isg or lst.get("size_used") or (1 << iw) > len(lst["elems"]):
+            raise Exception("sel: index may leave the list (outside the reference)")
+        it = ev(e[2], env)
+        acc = None
+        for i in reversed(range(len(lst["elems"]))):
+            t, ew, es = env.leaf_term(lp + (i,))
+            acc = t if acc is None else z3.If(it == z3.BitVecVal(i, it.size()), t, acc)
+        return acc
     if k == "not":
         w, s = ty(e[1], env)
         return ~ev(e[1], env, ctx)
